@@ -12,7 +12,8 @@ LEVEL_TEXT = ('Lean 4 theorems, for all shapes/offsets/data: extent queries = se
               'there are fields (the Python _disjoint is a loop whose iterations are the model\'s fuel steps), is total, preserves the '
               'total and yields pairwise non-overlapping fields for every collection of positive-shape fields of any size; a product '
               'fed into merge/reduce keeps emb a · emb b + the rest (product_then_merge/_reduce); boundary = the exact bounding box of '
-              'the pixel sets for every non-empty collection (boundary_is_bbox), wholly negative ones included; public merge = sum of the two embeddings, refused iff overlap is enforced and no pixel is '
+              'the pixel sets for every non-empty collection of extents within ±(2^63 − 1), the range of the initial value sys.maxsize '
+              '(boundary_is_bbox, hypothesis hM; boundary_is_bbox_general without it), wholly negative ones included; public merge = sum of the two embeddings, refused iff overlap is enforced and no pixel is '
               'shared; public overlap = common pixel (2 fields) / reduce leaves one field carrying the total (otherwise) — their '
               'branch tests, the dispatch of __mul__, the merge test of reduce and the step of _disjoint are generated from the '
               'source (Gen.FieldDispatch) and consumed by the models; insert adds '
@@ -103,7 +104,7 @@ def generate(rng, tier):
         if t == 0 and k % 20 == 10:
             m = int(rng.integers(1, 6))
             fs = [_field(rng, omax=int(rng.integers(2, 9))) for _ in range(m)]
-            neg = int(rng.integers(0, 8)) % 6        # wholly negative rows and/or columns: boundary's rmax/cmax start at 0
+            neg = int(rng.integers(0, 8)) % 6        # wholly negative rows and/or columns: the box must be the exact bounding box there too (boundary's maxima used to start at 0)
             for f in fs:
                 if neg & 1: f['off'][0] = -abs(f['off'][0]) - 4
                 if neg & 2: f['off'][1] = -abs(f['off'][1]) - 4
